@@ -462,6 +462,12 @@ func (r *Result) Finish() int {
 		}
 		unknown = append(unknown, *f)
 	}
+	// stale replay files of this property are removed on every run
+	if old, err := filepath.Glob(filepath.Join(replayDir, r.Property+"-*.json")); err == nil {
+		for _, f := range old {
+			_ = os.Remove(f)
+		}
+	}
 	code := 0
 	if len(unknown) > 0 {
 		code = 1
